@@ -123,6 +123,14 @@ def expm1 (x : Rat) : Option I :=
       let p := pow10 e.k
       some ⟨rdDown (e.m.lo * p - 1), rdUp (e.m.hi * p - 1)⟩
 
+/-- enclosure of ln(1+x) for |x| ≤ 1/2 by the Taylor polynomial of degree 5; the remainder is at most
+    |x|^6/(1−|x|) ≤ 2|x|^6.  Used for |x| < 10^-12, where the relative width is < 10^-59 (the generic
+    certified logarithm of 1+x cannot resolve ln(1+x) ≈ x to an ulp with 80 digits when |x| < 10^-37) -/
+def log1pSmall (x : Rat) : I :=
+  let s := x - x ^ 2 / 2 + x ^ 3 / 3 - x ^ 4 / 4 + x ^ 5 / 5
+  let t := 2 * (if x < 0 then -x else x) ^ 6
+  ⟨rdDown (s - t), rdUp (s + t)⟩
+
 /-! ## log, certified through exp -/
 
 def floatToRat (f : Float) : Rat :=
@@ -168,7 +176,10 @@ def log (q : Rat) (k : Int) : Option I :=
   let g2 := newton q k g1
   let g3 := newton q k g2
   let mag := if g3 < 0 then -g3 else g3
-  let d := (if mag < 1 then 1 else mag) * pow10 (-60)
+  -- half-width of the bracket: relative 10^-60, but at least 10^-72 (the exp enclosure resolves ~10^-75
+  -- at arguments near 0, so the certificate passes with a margin of 10^3); a Decimal x ≠ 1 has |ln x| > 10^-35,
+  -- whose unit in the last place is > 10^-70, so the bracket is always narrower than 3·10^-2 of an ulp
+  let d := if mag * pow10 (-60) < pow10 (-72) then pow10 (-72) else mag * pow10 (-60)
   let a := g3 - d
   let b := g3 + d
   if expLe a q k && expGe b q k then some ⟨a, b⟩ else none
